@@ -428,6 +428,8 @@ class Interp:
             raise Unsupported(f"inlining bound reached at {f.qualname}")
         self.log("enter", node, func=f, bound=bound)
         env = Env(f.env, bound)
+        if f.cls is not None:
+            env.vars["__class__"] = f.cls
         saved_mod = self.cur_mod
         self.cur_mod = f.module
         self.depth += 1
@@ -471,6 +473,18 @@ class Interp:
                 self.call_function(post, [obj], {}, node)
             return obj
         init = self.class_attr(c, "__init__")
+        if self.opaque(c):
+            bound: Dict[str, Any] = {}
+            if isinstance(init, FuncV):
+                bound = self.bind(init, [None, *args], kwargs)
+                bound.pop(self.param_names(init)[0], None)
+            else:
+                bound = {**{str(i): a for i, a in enumerate(args)}, **kwargs}
+            qn = f"{c.module.name}.{c.qualname}"
+            term = T("new", (qn, tuple((k, _term(v)) for k, v in bound.items())))
+            obj = Obj(qn, attrs=dict(bound), cls=c, term=term)
+            self.log("new", node, cls=c, bound=bound, obj=obj)
+            return obj
         if init is not None:
             obj = Obj(f"{c.module.name}.{c.qualname}", cls=c)
             self.call_function(init, [obj, *args], kwargs, node)
@@ -1322,13 +1336,32 @@ class Interp:
     def _super_call(self, n: ast.Call, env: Env, mi: ModInfo) -> Any:
         ok, selfv = env.lookup("self")
         meth = n.func.attr  # type: ignore[attr-defined]
-        args = [self.eval(a, env, mi) for a in n.args if not isinstance(a, ast.Starred)]
-        kwargs = {kw.arg: self.eval(kw.value, env, mi) for kw in n.keywords if kw.arg}
+        args = []
+        for a in n.args:
+            if isinstance(a, ast.Starred):
+                v = self.eval(a.value, env, mi)
+                seq = self.concrete_iter(v)
+                args.extend(seq if seq is not None else [TV(T("star", (_term(v),)), kind="opaque")])
+            else:
+                args.append(self.eval(a, env, mi))
+        kwargs = {}
+        for kw in n.keywords:
+            if kw.arg:
+                kwargs[kw.arg] = self.eval(kw.value, env, mi)
+            else:
+                v = self.eval(kw.value, env, mi)
+                if isinstance(v, dict):
+                    kwargs.update(v)
+                else:
+                    kwargs["**"] = v
         # find the class whose method we are in
         ok2, clsv = env.lookup("__class__")
         cls = clsv if ok2 else (selfv.cls if isinstance(selfv, Obj) else None)
         if isinstance(cls, ClassV):
             for b in self.class_bases(cls):
+                if isinstance(b, ClassV) and self.opaque(b):
+                    self.log("super", n, method=meth, args=args, kwargs=kwargs, obj=selfv, base=b)
+                    return None
                 if isinstance(b, ClassV):
                     r = self.class_attr(b, meth)
                     if isinstance(r, FuncV):
